@@ -1,6 +1,11 @@
 import Pearl.Proofs.EndToEndSteps
 import Pearl.Proofs.FsLemmas
 import Pearl.Proofs.EndToEndGhost
+import Pearl.Proofs.EndToEndMetaRun
+import Pearl.Proofs.EndToEndMetaReadAll
+import Pearl.Proofs.EndToEndMetaBytesStore
+import Pearl.Proofs.EndToEndMetaBytesSize
+import Pearl.Proofs.EndToEndMetaGhost
 /-
 End-to-end read path: the composition of C01 (rank order / `prune_transparent`), C10 (filters and the
 hierarchical container never give a false negative), C09 (look-ups through the B+tree file image equal look-ups
@@ -330,12 +335,623 @@ end Pearl.E2E
 #print axioms Pearl.E2E.restart_regenerates
 #print axioms Pearl.E2E.key_range_needed
 
+/-! # Extension: metadata, `read_all`, `delete(only_if_presented)`, the byte image of the index file
+
+Model: `Pearl/Model/EndToEndMeta.lean` (new definitions only; nothing of `Pearl/Model/EndToEnd.lean` is changed).
+Lemmas: `Pearl/Proofs/EndToEndMeta{Blob,Steps,L2,Run,ReadAll}.lean`, `Pearl/Proofs/EndToEndMetaBytes{Enc,Sim,Image,Cont,Blob,Store,Size}.lean`, `Pearl/Proofs/EndToEndMetaGhost.lean`.
+
+Operations with metadata are `MOp` (`write k ts (m : Option Meta) d` = `write` / `write_with`, `delete k ts m oip` =
+`delete` / `delete_with`, the lifecycle operations as before); `COp.toM` embeds the old operations and
+`stepM_toM : c.stepM cfg op.toM = c.step cfg op`.
+
+Additional side-condition on the inputs:
+* `MOp.OK` also asks the meta value to be a byte string (`MetaOK`: every element `< 256`).  The L2 record keeps the
+  meta as a list of naturals and compares those; the file keeps bytes and `filter_entries` compares the bytes.  It
+  is needed: `meta_range_needed`.  The same condition is asked of the meta of a query.
+-/
+namespace Pearl.E2E
+open Pearl Pearl.BPTree Pearl.Container
+
+/-! ## (5) metadata: `write_with`, `delete_with`, `contains_with`, `read_with` -/
+
+/-- every operation with metadata commutes with the abstraction function, keeps the invariant and the meta range
+    invariant -/
+theorem refinement_meta {cfg : Cfg} (hcfg : cfg.OK) (c : CState) (hinv : CInv cfg c)
+    (hmeta : StoreMetaOK (c.abs cfg)) (op : MOp) (hop : op.OK cfg)
+    (hsz : StoreSized cfg.klen ((c.abs cfg).apply op.abs)) :
+    (c.stepM cfg op).abs cfg = (c.abs cfg).apply op.abs ∧ CInv cfg (c.stepM cfg op) ∧
+      StoreMetaOK ((c.stepM cfg op).abs cfg) := by
+  obtain ⟨h1, h2⟩ := stepM_ref hcfg hinv hmeta op hop hsz
+  exact ⟨h1, h2, by rw [h1]; exact stepM_metaOK hinv.wf hmeta op hop⟩
+
+/-- along every history from the empty storage -/
+theorem refinement_meta_run {cfg : Cfg} (hcfg : cfg.OK) (ops : List MOp) (hops : ∀ op ∈ ops, op.OK cfg)
+    (hsz : StoreSized cfg.klen ((Store.init cfg.allowDup).run (ops.map MOp.abs))) :
+    ((CState.init cfg).runM cfg ops).abs cfg = (Store.init cfg.allowDup).run (ops.map MOp.abs) ∧
+      CInv cfg ((CState.init cfg).runM cfg ops) ∧ StoreMetaOK (((CState.init cfg).runM cfg ops).abs cfg) :=
+  runM_ref hcfg ops hops hsz
+
+/-- the operations of the first part are the operations without metadata -/
+theorem meta_ops_extend (cfg : Cfg) (c : CState) (op : COp) (ops : List COp) :
+    c.stepM cfg op.toM = c.step cfg op ∧ c.runM cfg (ops.map COp.toM) = c.run cfg ops ∧
+    op.toM.abs = op.abs ∧ (op.OK cfg → op.toM.OK cfg) :=
+  ⟨stepM_toM cfg c op, runM_toM cfg ops c, toM_abs op, toM_OK⟩
+
+/-- in any state satisfying the invariants: `read_with(meta)` and `contains_with(meta)` do not fail and return the
+    L2 answer, which is the answer of the specification (C02 `readWith_eq_spec`) -/
+theorem read_with_of_inv {cfg : Cfg} (hcfg : cfg.OK) (c : CState) (hinv : CInv cfg c)
+    (hmeta : StoreMetaOK (c.abs cfg)) (k : Key) (m : Meta) (hm : MetaOK m) :
+    c.readWith cfg k m = .ok (((c.abs cfg).read k (some m)).map (fun r => dataOf r.data)) ∧
+    c.readWith cfg k m = .ok ((Spec.readWith (c.abs cfg).history k m).map (fun p => dataOf p.r.data)) ∧
+    c.containsWith cfg k (some m) = .ok ((Spec.readWith (c.abs cfg).history k m).map (·.r.ts)) := by
+  have hm' : ∀ x, some m = some x → MetaOK x := by intro x hx; cases hx; exact hm
+  have h1 := readWithOpt_eq hcfg hinv hmeta k (some m) hm'
+  have h2 := containsWith_eq hcfg hinv hmeta k (some m) hm'
+  have hs : (c.abs cfg).getLatestEntry k (some m) = (Spec.readWith (c.abs cfg).history k m).map (·.r) :=
+    readWith_eq_spec hinv.wf k m
+  refine ⟨h1, ?_, ?_⟩
+  · show c.readWithOpt cfg k (some m) = _
+    rw [h1]
+    show Except.ok (((c.abs cfg).getLatestEntry k (some m)).map _) = _
+    rw [hs, ReadResult.map_map]
+  · rw [h2, hs, ReadResult.map_map]
+
+/-- **`end_to_end_read_with`**: for every history of concrete operations with metadata from the empty storage,
+    every key and every meta, the concrete `read_with(meta)` — active blob, then `iter_possible_childs_rev` with
+    filter pruning, per blob `check_filter`, `get_all_with_deletion_marker` through the vector or the index file,
+    the local marker split off, `load_meta` of every candidate from the blob bytes newest first, the answers merged
+    by `ReadResult::latest`, then `Entry::load` of the winner — returns without error the bytes of the record
+    `Store.read k (some m)` selects, which is `Spec.readWith` of the history -/
+theorem end_to_end_read_with {cfg : Cfg} (hcfg : cfg.OK) (ops : List MOp) (hops : ∀ op ∈ ops, op.OK cfg)
+    (hsz : StoreSized cfg.klen ((Store.init cfg.allowDup).run (ops.map MOp.abs))) (k : Key) (m : Meta)
+    (hm : MetaOK m) :
+    ((CState.init cfg).runM cfg ops).readWith cfg k m =
+      .ok ((((Store.init cfg.allowDup).run (ops.map MOp.abs)).read k (some m)).map (fun r => dataOf r.data)) ∧
+    ((CState.init cfg).runM cfg ops).readWith cfg k m =
+      .ok ((Spec.readWith ((Store.init cfg.allowDup).run (ops.map MOp.abs)).history k m).map
+        (fun p => dataOf p.r.data)) := by
+  obtain ⟨habs, hinv, hmeta⟩ := runM_ref hcfg ops hops hsz
+  have := read_with_of_inv hcfg _ hinv hmeta k m hm
+  rw [habs] at this
+  exact ⟨this.1, this.2.1⟩
+
+/-- **`end_to_end_contains_with`** (the duplicate check of `write_with`) -/
+theorem end_to_end_contains_with {cfg : Cfg} (hcfg : cfg.OK) (ops : List MOp) (hops : ∀ op ∈ ops, op.OK cfg)
+    (hsz : StoreSized cfg.klen ((Store.init cfg.allowDup).run (ops.map MOp.abs))) (k : Key) (m : Meta)
+    (hm : MetaOK m) :
+    ((CState.init cfg).runM cfg ops).containsWith cfg k (some m) =
+      .ok ((Spec.readWith ((Store.init cfg.allowDup).run (ops.map MOp.abs)).history k m).map (·.r.ts)) := by
+  obtain ⟨habs, hinv, hmeta⟩ := runM_ref hcfg ops hops hsz
+  have := read_with_of_inv hcfg _ hinv hmeta k m hm
+  rw [habs] at this
+  exact this.2.2
+
+/-- `read` and `contains` (no meta) after a history WITH metadata: `end_to_end_read` / `end_to_end_contains` on the
+    larger set of histories -/
+theorem end_to_end_read_meta_history {cfg : Cfg} (hcfg : cfg.OK) (ops : List MOp) (hops : ∀ op ∈ ops, op.OK cfg)
+    (hsz : StoreSized cfg.klen ((Store.init cfg.allowDup).run (ops.map MOp.abs))) (k : Key) :
+    ((CState.init cfg).runM cfg ops).read cfg k =
+      .ok ((Spec.latest ((Store.init cfg.allowDup).run (ops.map MOp.abs)).history k).map
+        (fun p => dataOf p.r.data)) ∧
+    ((CState.init cfg).runM cfg ops).contains cfg k =
+      .ok ((Spec.latest ((Store.init cfg.allowDup).run (ops.map MOp.abs)).history k).map (·.r.ts)) := by
+  obtain ⟨habs, hinv, _⟩ := runM_ref hcfg ops hops hsz
+  have := read_of_inv hcfg _ hinv k
+  rw [habs] at this
+  exact this
+
+/-- the duplicate check of `write_with` when duplicates are not allowed: if the specification finds a record with
+    this key and this meta (`Spec.readWith … = Found`), the write appends nothing -/
+theorem write_with_dedup {cfg : Cfg} (hcfg : cfg.OK) (c : CState) (hinv : CInv cfg c)
+    (hmeta : StoreMetaOK (c.abs cfg)) (k : Key) (ts : Nat) (m : Meta) (d : Data)
+    (hk : k < 256 ^ cfg.klen) (hts : ts < 2 ^ 64) (hm : MetaOK m) (hd : cfg.allowDup = false)
+    (hf : (Spec.readWith (c.abs cfg).ensureActive.history k m).isFound = true) :
+    (c.writeWithOpt cfg k ts (some m) d).abs cfg = (c.abs cfg).ensureActive := by
+  have hm' : ∀ x, some m = some x → MetaOK x := by intro x hx; cases hx; exact hm
+  rw [(writeWithOpt_ref0 hcfg hinv hmeta k ts (some m) d hk hts hm').1]
+  apply dedup_write (c.abs cfg) k ts (some m) d hd
+  have := readWith_eq_spec (Store.ensureActive_WF hinv.wf) k m
+  unfold Store.read at this
+  rw [this, ReadResult.isFound_map]
+  exact hf
+
+/-- the history variable is not read by the operations and read paths with metadata either: for ANY state -/
+theorem ghost_not_read_meta (cfg : Cfg) (c : CState) (op : MOp) (k : Key) (m : Option Meta) :
+    (c.stepM cfg op).eraseGhost = (c.eraseGhost.stepM cfg op).eraseGhost ∧
+    c.eraseGhost.readWithOpt cfg k m = c.readWithOpt cfg k m ∧
+    c.eraseGhost.containsWith cfg k m = c.containsWith cfg k m ∧
+    c.eraseGhost.readAllMarked cfg k = c.readAllMarked cfg k ∧ c.eraseGhost.readAll cfg k = c.readAll cfg k :=
+  ⟨stepM_eraseGhost cfg c op, (readWithOpt_ghost_irrelevant cfg c k m).1, (readWithOpt_ghost_irrelevant cfg c k m).2,
+    (readAll_ghost_irrelevant cfg c k).1, (readAll_ghost_irrelevant cfg c k).2⟩
+
+/-! ## (6) `read_all_with_deletion_marker`, `read_all` -/
+
+/-- in any state satisfying the invariant, `read_all_with_deletion_marker` and `read_all` do not fail, and the
+    entries they return are — one by one, in order — entries of the records of `Spec.allCut` / `Spec.allLive`
+    (C02 `readAllMarked_eq_spec`, `readAll_eq_spec`): same key, timestamp and marker flag, and `Entry::load` (with
+    its header and data checksum validation) returns the serialized meta and the bytes of the value.
+    `entryView e = (key, timestamp, is_deleted, Entry::load)`, `recView r` the same of a record. -/
+theorem read_all_of_inv {cfg : Cfg} (hcfg : cfg.OK) (c : CState) (hinv : CInv cfg c) (k : Key) :
+    (∃ es, c.readAllMarked cfg k = .ok es ∧
+      es.map entryView = (Spec.allCut (c.abs cfg).history k).map (fun p => recView p.r)) ∧
+    (∃ es, c.readAll cfg k = .ok es ∧
+      es.map entryView = (Spec.allLive (c.abs cfg).history k).map (fun p => recView p.r)) := by
+  constructor
+  · obtain ⟨Z, h1, h2, h3⟩ := readAllMarked_rr hcfg hinv k
+    refine ⟨_, h1, ?_⟩
+    rw [views_eq Z h3, ← h2, readAllMarked_eq_spec hinv.wf k, List.map_map]
+    rfl
+  · obtain ⟨Z, h1, h2, h3⟩ := readAll_rr hcfg hinv k
+    refine ⟨_, h1, ?_⟩
+    rw [views_eq Z h3, ← h2, readAll_eq_spec hinv.wf k, List.map_map]
+    rfl
+
+/-- **`end_to_end_read_all`**: for every history (with or without metadata) from the empty storage and every key,
+    the concrete `read_all_with_deletion_marker` — per blob `get_all_with_deletion_marker` through the vector or
+    the index file, over the active blob and the children `iter_possible_childs_rev` yields, the cross-blob stable
+    sort by timestamp, the global cut after the first marker — and `read_all` return without error entries whose
+    loaded records are exactly `Spec.allCut` / `Spec.allLive` of the history, in rank order -/
+theorem end_to_end_read_all {cfg : Cfg} (hcfg : cfg.OK) (ops : List MOp) (hops : ∀ op ∈ ops, op.OK cfg)
+    (hsz : StoreSized cfg.klen ((Store.init cfg.allowDup).run (ops.map MOp.abs))) (k : Key) :
+    let c := (CState.init cfg).runM cfg ops
+    let h := ((Store.init cfg.allowDup).run (ops.map MOp.abs)).history
+    (∃ es, c.readAllMarked cfg k = .ok es ∧ es.map entryView = (Spec.allCut h k).map (fun p => recView p.r)) ∧
+    (∃ es, c.readAll cfg k = .ok es ∧ es.map entryView = (Spec.allLive h k).map (fun p => recView p.r)) := by
+  intro c h
+  obtain ⟨habs, hinv, _⟩ := runM_ref hcfg ops hops hsz
+  have := read_all_of_inv hcfg c hinv k
+  rw [habs] at this
+  exact this
+
+/-- the same for the histories without metadata of the first part -/
+theorem end_to_end_read_all_plain {cfg : Cfg} (hcfg : cfg.OK) (ops : List COp) (hops : ∀ op ∈ ops, op.OK cfg)
+    (hsz : StoreSized cfg.klen ((Store.init cfg.allowDup).run (ops.map COp.abs))) (k : Key) :
+    let c := (CState.init cfg).run cfg ops
+    let h := ((Store.init cfg.allowDup).run (ops.map COp.abs)).history
+    (∃ es, c.readAllMarked cfg k = .ok es ∧ es.map entryView = (Spec.allCut h k).map (fun p => recView p.r)) ∧
+    (∃ es, c.readAll cfg k = .ok es ∧ es.map entryView = (Spec.allLive h k).map (fun p => recView p.r)) := by
+  intro c h
+  obtain ⟨habs, hinv⟩ := run_ref hcfg ops hops hsz
+  have := read_all_of_inv hcfg c hinv k
+  rw [habs] at this
+  exact this
+
+/-! ## (7) `delete` with `only_if_presented` -/
+
+/-- **`end_to_end_delete`**: `delete` / `delete_with`, in particular with `only_if_presented = true`, where every
+    blob decides through its concrete index (vector, or the index file image) whether the key is live in it:
+    the decision is `Spec.liveIn` of the blob's records, the state afterwards is the L2 state, and the number
+    returned is the number the L2 operation returns — and what the L2 operation does is C02 `delete_spec` -/
+theorem delete_of_inv {cfg : Cfg} (hcfg : cfg.OK) (c : CState) (hinv : CInv cfg c) (k : Key) (ts : Nat)
+    (m : Option Meta) (oip : Bool) (hk : k < 256 ^ cfg.klen) (hts : ts < 2 ^ 64) :
+    (c.deleteWithOpt cfg k ts m oip).1.abs cfg = ((c.abs cfg).delete k ts m oip).1 ∧
+    (c.deleteWithOpt cfg k ts m oip).2 = ((c.abs cfg).delete k ts m oip).2 ∧
+    (∀ b ∈ c.blobs, (b.deleteM cfg k ts m true).2 = Spec.liveIn b.id b.ghost k) :=
+  ⟨(deleteWithOpt_ref0 hcfg hinv k ts m oip hk hts).1, deleteWithOpt_count hcfg hinv k ts m oip hk hts,
+    fun _ hb => deleteM_live hcfg (CInvG.blobInv hinv hb) k ts m⟩
+
+theorem end_to_end_delete {cfg : Cfg} (hcfg : cfg.OK) (ops : List MOp) (hops : ∀ op ∈ ops, op.OK cfg)
+    (hsz : StoreSized cfg.klen ((Store.init cfg.allowDup).run (ops.map MOp.abs))) (k : Key) (ts : Nat)
+    (m : Option Meta) (oip : Bool) (hk : k < 256 ^ cfg.klen) (hts : ts < 2 ^ 64) :
+    let c := (CState.init cfg).runM cfg ops
+    let s := (Store.init cfg.allowDup).run (ops.map MOp.abs)
+    (c.deleteWithOpt cfg k ts m oip).1.abs cfg = (s.delete k ts m oip).1 ∧
+    (c.deleteWithOpt cfg k ts m oip).2 = (s.delete k ts m oip).2 ∧
+    (∀ b ∈ c.blobs, (b.deleteM cfg k ts m true).2 = Spec.liveIn b.id b.ghost k) := by
+  intro c s
+  obtain ⟨habs, hinv, _⟩ := runM_ref hcfg ops hops hsz
+  have := delete_of_inv hcfg c hinv k ts m oip hk hts
+  rw [habs] at this
+  exact this
+
+/-! ## (8) the index file as its byte image
+
+`BState` (`Pearl/Model/EndToEndMeta.lean`, second half) is the same storage with every dumped index held as the
+byte string `indexFileBytes` of `Pearl/Model/BPTreeBytes.lean` (C09 `bytes_length`, C03b) and every access to it —
+`from_file`, `get_latest`, `find_by_key`, `get_records_headers`, `read_meta`, `read_meta_at` — done on the bytes
+(`BIdx`).  The byte-level look-up functions did not exist (only the image and the start-up validation of C03b were
+modelled at byte level); they are transcribed in the model file and tied to the structured look-ups of L4 by a
+simulation (`Pearl/Proofs/EndToEndMetaBytes{Enc,Sim,Image,Cont,Blob,Store}.lean`): on the image of a file `build`
+produces, whenever the structured look-up returns normally — and by C09 it always does — the byte-level look-up
+returns the same.  The record headers in the index file are the L5 serialisation (`rawBytes_eq_serHeader`), read back
+by the L5 deserializer.
+
+Additional side-conditions (`BytesOK`, `IdxSized`):
+* the hash function has 32-byte values (SHA-256 itself is not modelled: the hash check of `get_records_headers`
+  is the one step that is not performed at byte level; every other check of `validate_header` is);
+* every index file on disk, in every state passed through, is shorter than `2^64` bytes (its header fields and the
+  offsets in its nodes are `u64`; a longer file has no byte image) — `IdxSized`; it follows from a bound on the blobs
+  of the final L2 state, `StoreIdxSized` (`idx_sized_of_inputs`, `end_to_end_read_bytes_inputs`;
+  `Pearl/Proofs/EndToEndMetaBytesSize.lean`).
+-/
+
+/-- the four accesses to an on-disk index, through the byte image and through the structured file -/
+theorem index_bytes_lookups {cfg : Cfg} {sha : List Nat → List Nat} (hB : BytesOK cfg sha) (c : CState)
+    (hinv : CInv cfg c) (hs : c.IdxSized) (b : CBlob) (hb : b ∈ c.blobs) (k : Key) :
+    (b.toB sha).index.getLatest cfg.klen k = b.index.getLatest k ∧
+    (b.toB sha).index.getAllMarked cfg.klen k = b.index.getAllMarked k ∧
+    (b.toB sha).checkFilter cfg k = b.checkFilter cfg k ∧
+    (b.toB sha).loadIndex cfg = (b.loadIndex cfg).toB sha :=
+  ⟨index_getLatest_toB hB (CInvG.blobInv hinv hb) (hs b hb) k,
+    index_getAllMarked_toB hB (CInvG.blobInv hinv hb) (hs b hb) k,
+    checkFilter_toB hB (CInvG.blobInv hinv hb) (hs b hb) k,
+    loadIndex_toB hB (CInvG.blobInv hinv hb) (hs b hb)⟩
+
+/-- in any state satisfying the invariant: every read through the byte images gives the answer of the structured
+    storage, and every operation commutes with the translation -/
+theorem bytes_of_inv {cfg : Cfg} {sha : List Nat → List Nat} (hB : BytesOK cfg sha) (c : CState)
+    (hinv : CInv cfg c) (hs : c.IdxSized) :
+    (∀ k m, (c.toB sha).readWithOpt cfg k m = c.readWithOpt cfg k m) ∧
+    (∀ k m, (c.toB sha).containsWith cfg k m = c.containsWith cfg k m) ∧
+    (∀ k, (c.toB sha).readAllMarked cfg k = c.readAllMarked cfg k) ∧
+    (∀ k, (c.toB sha).readAll cfg k = c.readAll cfg k) ∧
+    (∀ op, (c.stepM cfg op).toB sha = (c.toB sha).stepB cfg sha op) ∧
+    (∀ k ts m oip, (c.deleteWithOpt cfg k ts m oip).2 = ((c.toB sha).deleteWithOpt cfg k ts m oip).2) :=
+  ⟨fun k m => readWithOpt_toB hB hinv hs k m, fun k m => containsWith_toB hB hinv hs k m,
+    fun k => readAllMarked_toB hB hinv hs k, fun k => readAll_toB hB hinv hs k,
+    fun op => stepM_toB hB hinv hs op, fun k ts m oip => (deleteWithOpt_toB hB hinv hs k ts m oip).2⟩
+
+/-- the byte-level storage run from the empty directory is the translation of the structured one -/
+theorem refinement_bytes_run {cfg : Cfg} {sha : List Nat → List Nat} (hB : BytesOK cfg sha) (ops : List MOp)
+    (hops : ∀ op ∈ ops, op.OK cfg)
+    (hsz : StoreSized cfg.klen ((Store.init cfg.allowDup).run (ops.map MOp.abs)))
+    (hidx : ∀ n, n ≤ ops.length → ((CState.init cfg).runM cfg (ops.take n)).IdxSized) :
+    (BState.init cfg).runB cfg sha ops = ((CState.init cfg).runM cfg ops).toB sha :=
+  runB_eq hB ops hops hsz hidx
+
+/-- **`end_to_end_read_bytes`**: with every dumped index held as its byte image and looked up through the
+    byte-level functions — for every history of operations (with metadata) from the empty directory — the answers
+    of `read`, `contains`, `read_with`, `contains_with`, `read_all_with_deletion_marker` and `read_all` are those of
+    the structured storage, hence those of the specification -/
+theorem end_to_end_read_bytes {cfg : Cfg} {sha : List Nat → List Nat} (hB : BytesOK cfg sha) (ops : List MOp)
+    (hops : ∀ op ∈ ops, op.OK cfg)
+    (hsz : StoreSized cfg.klen ((Store.init cfg.allowDup).run (ops.map MOp.abs)))
+    (hidx : ∀ n, n ≤ ops.length → ((CState.init cfg).runM cfg (ops.take n)).IdxSized) (k : Key) :
+    let b := (BState.init cfg).runB cfg sha ops
+    let c := (CState.init cfg).runM cfg ops
+    let h := ((Store.init cfg.allowDup).run (ops.map MOp.abs)).history
+    -- unchanged
+    (∀ m, b.readWithOpt cfg k m = c.readWithOpt cfg k m) ∧
+    (∀ m, b.containsWith cfg k m = c.containsWith cfg k m) ∧
+    b.readAllMarked cfg k = c.readAllMarked cfg k ∧ b.readAll cfg k = c.readAll cfg k ∧
+    -- and equal to the specification
+    b.readWithOpt cfg k none = .ok ((Spec.latest h k).map (fun p => dataOf p.r.data)) ∧
+    b.containsWith cfg k none = .ok ((Spec.latest h k).map (·.r.ts)) ∧
+    (∀ m, MetaOK m →
+      b.readWithOpt cfg k (some m) = .ok ((Spec.readWith h k m).map (fun p => dataOf p.r.data)) ∧
+      b.containsWith cfg k (some m) = .ok ((Spec.readWith h k m).map (·.r.ts))) ∧
+    (∃ es, b.readAllMarked cfg k = .ok es ∧ es.map entryView = (Spec.allCut h k).map (fun p => recView p.r)) ∧
+    (∃ es, b.readAll cfg k = .ok es ∧ es.map entryView = (Spec.allLive h k).map (fun p => recView p.r)) := by
+  intro b c h
+  have hb : b = c.toB sha := runB_eq hB ops hops hsz hidx
+  obtain ⟨habs, hinv, hmeta⟩ := runM_ref hB.ok ops hops hsz
+  have hs : c.IdxSized := by
+    have := hidx ops.length (Nat.le_refl _)
+    rwa [List.take_length] at this
+  obtain ⟨e1, e2, e3, e4, _, _⟩ := bytes_of_inv hB c hinv hs
+  have hr := read_of_inv hB.ok c hinv k
+  have hall := read_all_of_inv hB.ok c hinv k
+  rw [habs] at hr hall
+  refine ⟨fun m => by rw [hb]; exact e1 k m, fun m => by rw [hb]; exact e2 k m, by rw [hb]; exact e3 k,
+    by rw [hb]; exact e4 k, ?_, ?_, ?_, ?_, ?_⟩
+  · rw [hb, e1]; exact hr.1
+  · rw [hb, e2]; exact hr.2
+  · intro m hm
+    have := read_with_of_inv hB.ok c hinv hmeta k m hm
+    rw [habs] at this
+    exact ⟨by rw [hb, e1]; exact this.2.1, by rw [hb, e2]; exact this.2.2⟩
+  · rw [hb, e3]; exact hall.1
+  · rw [hb, e4]; exact hall.2
+
+/-- the size side-condition on every state passed through follows from a bound on the blobs of the FINAL L2
+    state: an index file is at most three times as long as its blob file, plus the filter section (whose length
+    `filterLen cfg = 2 K + 81 + 8 ⌈bits / 64⌉` is fixed by the configuration), plus a constant -/
+theorem idx_sized_of_inputs {cfg : Cfg} (hcfg : cfg.OK) (ops : List MOp) (hops : ∀ op ∈ ops, op.OK cfg)
+    (h : StoreIdxSized cfg ((Store.init cfg.allowDup).run (ops.map MOp.abs))) :
+    StoreSized cfg.klen ((Store.init cfg.allowDup).run (ops.map MOp.abs)) ∧
+    ∀ n, n ≤ ops.length → ((CState.init cfg).runM cfg (ops.take n)).IdxSized :=
+  ⟨h.toStoreSized, idxSized_of_final hcfg ops hops h⟩
+
+/-- `StoreIdxSized` in arithmetic form: per blob of the L2 state,
+    `3 · (20 + Σ (57 + K::LEN + |meta| + data length)) + filterLen cfg + 4200 < 2^64` -/
+theorem storeIdxSized_iff (cfg : Cfg) (s : Store) :
+    StoreIdxSized cfg s ↔ ∀ b ∈ s.blobs, 3 * Fs.contentLen cfg.klen b.recs + filterLen cfg + 4200 < 2 ^ 64 := by
+  have h : ∀ b : Blob, (blobBytes cfg.klen (full b.recs)).length = Fs.contentLen cfg.klen b.recs :=
+    fun b => Fs.content_length cfg.klen b
+  unfold StoreIdxSized
+  constructor
+  · intro hs b hb; rw [← h]; exact hs b hb
+  · intro hs b hb; rw [h]; exact hs b hb
+
+/-- **`end_to_end_read_bytes`, all side-conditions on the inputs**: the configuration (`cfg.OK`), a 32-byte hash,
+    the operations (`MOp.OK`), and the size bound `StoreIdxSized` on the final L2 state -/
+theorem end_to_end_read_bytes_inputs {cfg : Cfg} {sha : List Nat → List Nat} (hB : BytesOK cfg sha) (ops : List MOp)
+    (hops : ∀ op ∈ ops, op.OK cfg)
+    (hsz : StoreIdxSized cfg ((Store.init cfg.allowDup).run (ops.map MOp.abs))) (k : Key) :
+    let b := (BState.init cfg).runB cfg sha ops
+    let c := (CState.init cfg).runM cfg ops
+    let h := ((Store.init cfg.allowDup).run (ops.map MOp.abs)).history
+    (∀ m, b.readWithOpt cfg k m = c.readWithOpt cfg k m) ∧
+    (∀ m, b.containsWith cfg k m = c.containsWith cfg k m) ∧
+    b.readAllMarked cfg k = c.readAllMarked cfg k ∧ b.readAll cfg k = c.readAll cfg k ∧
+    b.readWithOpt cfg k none = .ok ((Spec.latest h k).map (fun p => dataOf p.r.data)) ∧
+    b.containsWith cfg k none = .ok ((Spec.latest h k).map (·.r.ts)) ∧
+    (∀ m, MetaOK m →
+      b.readWithOpt cfg k (some m) = .ok ((Spec.readWith h k m).map (fun p => dataOf p.r.data)) ∧
+      b.containsWith cfg k (some m) = .ok ((Spec.readWith h k m).map (·.r.ts))) ∧
+    (∃ es, b.readAllMarked cfg k = .ok es ∧ es.map entryView = (Spec.allCut h k).map (fun p => recView p.r)) ∧
+    (∃ es, b.readAll cfg k = .ok es ∧ es.map entryView = (Spec.allLive h k).map (fun p => recView p.r)) :=
+  end_to_end_read_bytes hB ops hops hsz.toStoreSized (idxSized_of_final hB.ok ops hops hsz) k
+
+/-! ## non-vacuity (metadata, delete) -/
+
+namespace DemoM
+
+/-- two blobs; blob 0 (three records: key 1 with meta `{"m": [7]}`, key 1 without meta and newer, key 2 with meta
+    `{"m": [9]}`) is closed and dumped; then key 1 is written once more with meta `{"m": [8]}`; finally
+    `delete_with(2, meta {"m": [1]}, only_if_presented)` marks blob 0 (through its index file) and not blob 1 -/
+def ops : List MOp :=
+  [.write 1 5 (some (some [7])) ⟨2, 1⟩, .write 1 6 none ⟨1, 2⟩, .write 2 4 (some (some [9])) ⟨1, 5⟩,
+   .closeActive, .settle, .write 1 7 (some (some [8])) ⟨3, 3⟩, .delete 2 9 (some (some [1])) true]
+
+/-- before the delete: blob 0 has its index on disk -/
+def s6 : CState := (CState.init Demo.cfg).runM Demo.cfg (ops.take 6)
+def s : CState := (CState.init Demo.cfg).runM Demo.cfg ops
+
+theorem ops_ok : ∀ op ∈ ops, op.OK Demo.cfg := by decide
+
+set_option maxRecDepth 100000 in
+theorem ops_sized : StoreSized Demo.cfg.klen ((Store.init Demo.cfg.allowDup).run (ops.map MOp.abs)) := by
+  unfold StoreSized; decide
+
+theorem ops6_ok : ∀ op ∈ ops.take 6, op.OK Demo.cfg := by decide
+
+set_option maxRecDepth 100000 in
+theorem ops6_sized : StoreSized Demo.cfg.klen ((Store.init Demo.cfg.allowDup).run ((ops.take 6).map MOp.abs)) := by
+  unfold StoreSized; decide
+
+end DemoM
+
+example : (DemoM.s6.abs Demo.cfg).blobs.map (fun b => (b.id, b.recs.length, b.onDisk)) = [(0, 3, true), (1, 1, false)] ∧
+    (DemoM.s.abs Demo.cfg).blobs.map (fun b => (b.id, b.recs.length, b.onDisk)) = [(0, 4, false), (1, 1, false)] := by
+  decide
+
+-- `read_with`, evaluated: the older record of key 1 is found below a newer one with another meta, through the index
+-- file of the dumped blob and `load_meta` on the blob bytes; the empty meta selects the record written by `write`;
+-- key 2 is found before the delete and `Deleted` after it; key 3 is absent
+set_option maxRecDepth 1000000 in
+example : DemoM.s6.readWith Demo.cfg 1 (some [7]) = .ok (.found [1, 47]) ∧ dataOf ⟨2, 1⟩ = [1, 47] ∧
+    DemoM.s6.readWith Demo.cfg 1 none = .ok (.found [2]) ∧
+    DemoM.s6.readWith Demo.cfg 1 (some [8]) = .ok (.found [3, 107, 223]) ∧
+    DemoM.s6.readWith Demo.cfg 2 (some [9]) = .ok (.found [5]) ∧
+    DemoM.s.readWith Demo.cfg 2 (some [9]) = .ok (.deleted 9) ∧
+    DemoM.s.readWith Demo.cfg 3 none = .ok .notFound ∧
+    DemoM.s6.containsWith Demo.cfg 1 (some (some [7])) = .ok (.found 5) := by decide
+
+-- the theorems instantiated on it
+example : DemoM.s6.readWith Demo.cfg 1 (some [7]) =
+    .ok ((Spec.readWith ((Store.init true).run ((DemoM.ops.take 6).map MOp.abs)).history 1 (some [7])).map
+      (fun p => dataOf p.r.data)) :=
+  (end_to_end_read_with Demo.cfg_ok (DemoM.ops.take 6) DemoM.ops6_ok DemoM.ops6_sized 1 (some [7]) (by decide)).2
+
+example (k : Key) (m : Meta) (hm : MetaOK m) : DemoM.s.readWith Demo.cfg k m =
+    .ok ((Spec.readWith ((Store.init true).run (DemoM.ops.map MOp.abs)).history k m).map (fun p => dataOf p.r.data)) :=
+  (end_to_end_read_with Demo.cfg_ok DemoM.ops DemoM.ops_ok DemoM.ops_sized k m hm).2
+
+example : CInv Demo.cfg DemoM.s ∧ StoreMetaOK (DemoM.s.abs Demo.cfg) :=
+  (refinement_meta_run Demo.cfg_ok DemoM.ops DemoM.ops_ok DemoM.ops_sized).2
+
+-- `delete(only_if_presented)`, evaluated on the state before the delete: one blob is marked (blob 0, whose index is
+-- on disk); and by the theorem
+set_option maxRecDepth 1000000 in
+example : (DemoM.s6.deleteWithOpt Demo.cfg 2 9 (some (some [1])) true).2 = 1 ∧
+    (DemoM.s6.deleteWithOpt Demo.cfg 1 9 none true).2 = 2 ∧ (DemoM.s6.deleteWithOpt Demo.cfg 3 9 none true).2 = 0 := by
+  decide
+
+example : (DemoM.s6.deleteWithOpt Demo.cfg 2 9 (some (some [1])) true).2 =
+    (((Store.init true).run ((DemoM.ops.take 6).map MOp.abs)).delete 2 9 (some (some [1])) true).2 :=
+  (end_to_end_delete Demo.cfg_ok (DemoM.ops.take 6) DemoM.ops6_ok DemoM.ops6_sized 2 9 (some (some [1])) true
+    (by decide) (by decide)).2.1
+
+/-! ### non-vacuity (`read_all`) -/
+
+namespace DemoRA
+
+/-- blob 0 (dumped): key 1 at ts 5 with a meta and at ts 7; blob 1 (active): key 1 at ts 5 again (a cross-blob
+    tie), then a marker at ts 6 -/
+def ops : List MOp :=
+  [.write 1 5 (some (some [7])) ⟨2, 1⟩, .write 1 7 none ⟨1, 2⟩, .closeActive, .settle,
+   .write 1 5 none ⟨3, 3⟩, .delete 1 6 none false]
+
+def s5 : CState := (CState.init Demo.cfg).runM Demo.cfg (ops.take 5)
+def s : CState := (CState.init Demo.cfg).runM Demo.cfg ops
+
+theorem ops_ok : ∀ op ∈ ops, op.OK Demo.cfg := by decide
+
+set_option maxRecDepth 100000 in
+theorem ops_sized : StoreSized Demo.cfg.klen ((Store.init Demo.cfg.allowDup).run (ops.map MOp.abs)) := by
+  unfold StoreSized; decide
+
+/-- timestamps and marker flags of an answer -/
+def shape (r : Except CErr (List CEntry)) : Option (List (Nat × Bool)) :=
+  match r with
+  | .ok es => some (es.map (fun e => (e.hdr.timestamp, e.hdr.isDeleted)))
+  | .error _ => none
+
+/-- what `Entry::load` returns for the entries of an answer -/
+def loads (r : Except CErr (List CEntry)) : Option (List (Except LoadErr (List UInt8 × List UInt8))) :=
+  match r with
+  | .ok es => some (es.map (fun e => entryLoad e.file e.hdr))
+  | .error _ => none
+
+end DemoRA
+
+-- evaluated: before the delete the three records in rank order (the tie at ts 5: the newer blob first; blob 0 is
+-- read through its index file); after it the list is cut after the marker, and `read_all` drops the marker
+set_option maxRecDepth 1000000 in
+example : DemoRA.shape (DemoRA.s5.readAllMarked Demo.cfg 1) = some [(7, false), (5, false), (5, false)] ∧
+    DemoRA.loads (DemoRA.s5.readAllMarked Demo.cfg 1) = some [.ok (serMeta none, [2]),
+      .ok (serMeta none, [3, 107, 223]), .ok (serMeta (some [7]), [1, 47])] ∧
+    DemoRA.shape (DemoRA.s.readAllMarked Demo.cfg 1) = some [(7, false), (6, true)] ∧
+    DemoRA.shape (DemoRA.s.readAll Demo.cfg 1) = some [(7, false)] ∧
+    DemoRA.shape (DemoRA.s.readAll Demo.cfg 2) = some [] := by decide
+
+example : ∃ es, DemoRA.s.readAllMarked Demo.cfg 1 = .ok es ∧
+    es.map entryView =
+      (Spec.allCut ((Store.init true).run (DemoRA.ops.map MOp.abs)).history 1).map (fun p => recView p.r) :=
+  (end_to_end_read_all Demo.cfg_ok DemoRA.ops DemoRA.ops_ok DemoRA.ops_sized 1).1
+
+/-! ### non-vacuity (bytes) -/
+
+namespace DemoB
+
+/-- a stand-in for SHA-256 -/
+def sha : List Nat → List Nat := fun l => List.replicate 32 (l.length % 256)
+
+theorem ok : BytesOK Demo.cfg sha := ⟨Demo.cfg_ok, fun _ => by simp [sha]⟩
+
+set_option maxRecDepth 100000 in
+theorem idx_sized : ∀ n, n ≤ DemoM.ops.length → ((CState.init Demo.cfg).runM Demo.cfg (DemoM.ops.take n)).IdxSized := by
+  decide
+
+set_option maxRecDepth 100000 in
+/-- … and the bound on the final L2 state from which it follows -/
+theorem store_idx_sized : StoreIdxSized Demo.cfg ((Store.init Demo.cfg.allowDup).run (DemoM.ops.map MOp.abs)) := by
+  unfold StoreIdxSized; decide
+
+/-- the byte-level storage after the first six operations of `DemoM.ops`: blob 0 has its index on disk, as bytes -/
+def s6 : BState := (BState.init Demo.cfg).runB Demo.cfg sha (DemoM.ops.take 6)
+
+end DemoB
+
+-- the index file of blob 0: 83 (header) + 99 (filters) + 16 (tree meta) + 3 · 58 (record headers) = 372 bytes; it is opened
+-- by `from_file`, and the look-ups on the bytes find key 1 (two versions) and do not find key 3
+set_option maxRecDepth 1000000 in
+example : DemoB.s6.blobs.map (fun b => (b.id, b.index.onDisk)) = [(0, true), (1, false)] ∧
+    (match DemoB.s6.blobs.head? with
+      | some b =>
+        (match b.index with
+          | .disk img _ => (BIdx.fromFile img).isSome && decide (img.length = 83 + 99 + 16 + 3 * 58)
+          | .mem _ => false) &&
+        ((b.index.getAllMarked 1 1).map (·.map (·.timestamp)) == some [6, 5]) &&
+        ((b.index.getLatest 1 3) == some none)
+      | none => false) = true := by decide +kernel
+
+-- reads through the bytes, evaluated
+set_option maxRecDepth 1000000 in
+example : DemoB.s6.readWithOpt Demo.cfg 1 (some (some [7])) = .ok (.found [1, 47]) ∧
+    DemoB.s6.readWithOpt Demo.cfg 2 (some (some [9])) = .ok (.found [5]) ∧
+    DemoB.s6.readWithOpt Demo.cfg 3 none = .ok .notFound ∧
+    (DemoB.s6.deleteWithOpt Demo.cfg 2 9 (some (some [1])) true).2 = 1 := by decide +kernel
+
+-- and by the theorem, for every key and meta
+example (k : Key) (m : Meta) (hm : MetaOK m) :
+    ((BState.init Demo.cfg).runB Demo.cfg DemoB.sha DemoM.ops).readWithOpt Demo.cfg k (some m) =
+      .ok ((Spec.readWith ((Store.init true).run (DemoM.ops.map MOp.abs)).history k m).map (fun p => dataOf p.r.data)) :=
+  ((end_to_end_read_bytes DemoB.ok DemoM.ops DemoM.ops_ok DemoM.ops_sized DemoB.idx_sized k).2.2.2.2.2.2.1 m hm).1
+
+example (k : Key) :
+    ((BState.init Demo.cfg).runB Demo.cfg DemoB.sha DemoM.ops).readWithOpt Demo.cfg k none =
+      .ok ((Spec.latest ((Store.init true).run (DemoM.ops.map MOp.abs)).history k).map (fun p => dataOf p.r.data)) :=
+  (end_to_end_read_bytes_inputs DemoB.ok DemoM.ops DemoM.ops_ok DemoB.store_idx_sized k).2.2.2.2.1
+
+example : filterLen Demo.cfg = 99 := by decide
+
+/-- the simulation on an index file with an inner node: 80 keys of one byte, one header each (two leaves under a
+    root node, 4764 bytes) -/
+def DemoB.hd (k : Nat) : RecHeader :=
+  { magicByte := RECORD_MAGIC_BYTE, key := [UInt8.ofNat k], metaSize := 8, dataSize := 1, flags := 0,
+    blobOffset := 20 + 67 * k, timestamp := k, dataChecksum := 0, headerChecksum := 0 }
+def DemoB.m80 : InMem RecHeader := indexOf ((List.range 80).map DemoB.hd)
+def DemoB.F80 : IndexFile RecHeader := build (Params.real 1) 0 DemoB.m80
+def DemoB.img80 : List Nat := imageOf (fun _ => List.replicate 32 0) DemoB.F80 [] 5400
+
+-- evaluated: the descent through the root node on the bytes, the leaf windows, present and absent keys
+set_option maxRecDepth 1000000 in
+example : DemoB.F80.nodes.length = 1 ∧ DemoB.img80.length = 4764 ∧
+    (match BIdx.fromFile DemoB.img80 with
+      | some x => (BIdx.getLatest 1 x 0 == DemoB.F80.getLatest 0) && (BIdx.getLatest 1 x 79 == DemoB.F80.getLatest 79) &&
+          (BIdx.getLatest 1 x 75 == some (some (DemoB.hd 75))) && (BIdx.findByKey 1 x 100 == some none) &&
+          (BIdx.findByKey 1 x 3 == some (some [DemoB.hd 3]))
+      | none => false) = true := by decide +kernel
+
+-- and by the simulation theorem, for every key
+example (k : Nat) :
+    BIdx.getLatest 1 (openedImage 1 [] DemoB.m80 (List.replicate 32 0) 5400) k = DemoB.F80.getLatest k := by
+  have hq : ∀ h ∈ (List.range 80).map DemoB.hd, HdrOK 1 h := by
+    intro h hh
+    obtain ⟨i, hi, rfl⟩ := List.mem_map.mp hh
+    have hi' : i < 80 := List.mem_range.mp hi
+    refine ⟨rfl, rfl, show RECORD_MAGIC_BYTE < 2 ^ 64 by decide, show 1 < 2 ^ 64 by decide,
+      show 8 < 2 ^ 64 by decide, show 1 < 2 ^ 64 by decide, ?_, ?_⟩
+    · show 20 + 67 * i < 2 ^ 64
+      omega
+    · show i < 2 ^ 64
+      omega
+  have sim := image_sim 1 [] DemoB.m80 (by decide) (indexOf_WF _) (List.replicate 32 0) (by decide) 5400 (by decide)
+    (indexOf_keys_lt _ hq) (indexOf_leaf_ok _ hq) (by decide)
+  have hst := C09.ondisk_latest_eq (Params.real 1) (C09.valid_real 1 (by decide)) 0 DemoB.m80 (indexOf_WF _)
+    (by decide) k
+  exact (getLatest_sim sim k _ hst).trans hst.symm
+
+/-- duplicates not allowed: the second `write_with` of the same key and meta appends nothing, another meta does -/
+def DemoM.cfgND : Cfg := { Demo.cfg with allowDup := false }
+
+set_option maxRecDepth 1000000 in
+example :
+    let c := (CState.init DemoM.cfgND).runM DemoM.cfgND
+      [.write 1 5 (some (some [7])) ⟨2, 1⟩, .closeActive, .settle, .write 1 6 (some (some [7])) ⟨1, 1⟩,
+       .write 1 7 (some (some [8])) ⟨1, 2⟩]
+    (c.abs DemoM.cfgND).blobs.map (fun b => b.recs.length) = [1, 1] := by decide
+
+set_option maxRecDepth 1000000 in
+/-- the meta range hypothesis is needed: the meta value `[256]` is stored as the byte `0`; a `read_with` for the meta
+    value `[0]` finds that record, while the L2 store and the specification (which compare the lists) do not -/
+theorem meta_range_needed :
+    let ops : List MOp := [.write 1 5 (some (some [256])) ⟨1, 1⟩]
+    ((CState.init Demo.cfg).runM Demo.cfg ops).readWith Demo.cfg 1 (some [0]) = .ok (.found (dataOf ⟨1, 1⟩)) ∧
+    ((Store.init true).run (ops.map MOp.abs)).read 1 (some (some [0])) = .notFound ∧
+    ¬ (∀ op ∈ ops, op.OK Demo.cfg) := by
+  refine ⟨by decide, by decide, by decide⟩
+
+end Pearl.E2E
+
+#print axioms Pearl.E2E.refinement_meta
+#print axioms Pearl.E2E.refinement_meta_run
+#print axioms Pearl.E2E.meta_ops_extend
+#print axioms Pearl.E2E.read_with_of_inv
+#print axioms Pearl.E2E.end_to_end_read_with
+#print axioms Pearl.E2E.end_to_end_contains_with
+#print axioms Pearl.E2E.end_to_end_read_meta_history
+#print axioms Pearl.E2E.write_with_dedup
+#print axioms Pearl.E2E.ghost_not_read_meta
+#print axioms Pearl.E2E.read_all_of_inv
+#print axioms Pearl.E2E.end_to_end_read_all
+#print axioms Pearl.E2E.end_to_end_read_all_plain
+#print axioms Pearl.E2E.delete_of_inv
+#print axioms Pearl.E2E.end_to_end_delete
+#print axioms Pearl.E2E.meta_range_needed
+#print axioms Pearl.E2E.index_bytes_lookups
+#print axioms Pearl.E2E.bytes_of_inv
+#print axioms Pearl.E2E.refinement_bytes_run
+#print axioms Pearl.E2E.end_to_end_read_bytes
+#print axioms Pearl.E2E.idx_sized_of_inputs
+#print axioms Pearl.E2E.storeIdxSized_iff
+#print axioms Pearl.E2E.end_to_end_read_bytes_inputs
+
 /-
 NOT YET PROVED
-* metadata (`read_with`, `write_with`, delete markers with metadata) and bloom off-loading are not part of the
-  concrete operations;
-* `read_all` / `read_all_with_deletion_marker` are not composed (only `read` and `contains`);
+* bloom off-loading (`offload_buffer`) is not part of the concrete operations (the `read_meta_at` path that an
+  off-loaded filter uses is modelled and proved at byte level, `checkFilter_toB`, but no operation off-loads);
 * concurrency: the concrete operations are sequential (the read-side LTS of C08 is not composed with the bytes);
-* the on-disk index is the structured `IndexFile` of L4 (node / header granularity), not the byte string of
-  `BPTreeBytes.lean`; the blob file is at byte level.
+* byte level of the index file (section (8)): SHA-256 is not modelled — `hash` is an uninterpreted 32-byte field, so
+  the check `hash_valid` of `get_records_headers` is the one step of the index code that `BIdx.load` does not perform;
+  `BIdx` re-reads header, tree meta and root node with `from_file` at every access instead of caching them in the
+  struct (the cached values are what `from_file` reads);
+* the input-level size condition `StoreIdxSized` is sufficient, not necessary (it bounds the index file by three
+  times the blob file; the exact condition is `IdxSized`, used by `end_to_end_read_bytes`);
+* the meta maps have at most one entry (as in the L5 model); `Meta` equality of `filter_entries` is equality of the
+  deserialised entry lists, which coincides with `HashMap` equality only for such maps;
+* restart WITH index files (`from_file` + `acceptIndex` of C03b deciding between the byte image and regeneration) is
+  not composed: `restart` drops the index files, as in the first part.
 -/
